@@ -648,4 +648,5 @@ SELFTESTS = [
     (rule_census, ["c12_bad.cc"], ["c12_good.cc"], "sneaky"),
     (rule_path_confinement, ["c12_bad.cc"], ["c12_good.cc"], "ofstream"),
     (rule_not_an_input, ["c12_in_bad.cc"], ["c12_in_good.cc"], "write_body"),
+    (rule_directory_separator, ["c12_in_bad.cc"], ["c12_in_good.cc"], "dest_dir"),
 ]
